@@ -9,6 +9,7 @@ import (
 	"fmt"
 	"go/token"
 	"go/types"
+	"os"
 	"sort"
 	"strings"
 	"sync"
@@ -121,9 +122,18 @@ func (r *run) chooseFree(n int, name string) int {
 	return r.choose(n, nil)
 }
 
+var qprof = map[string]int{}
+var qprofMu sync.Mutex
+var qprofOn = os.Getenv("VSYM_QPROF") != ""
+
 func (r *run) feasible(c *Term) bool {
 	if c.IsConst() {
 		return c.Val == 1
+	}
+	if qprofOn && len(r.stack) > 0 {
+		qprofMu.Lock()
+		qprof[r.stack[len(r.stack)-1].String()]++
+		qprofMu.Unlock()
 	}
 	res, _ := r.sol.Check(c, false)
 	if res == "unknown" {
